@@ -193,6 +193,7 @@ def explore(ctx):
         ctx.tie_mismatch('compute (base run)', cases[i], refs[i], tie.model_compute_view(cases[i], 'c16_dump'))
     narrow_threshold_stream(ctx)
     translation_edge_stream(ctx)
+    default_threshold_scaling_stream(ctx)
     seeded_flip_stream(ctx)
     # the relabellings the theorems speak about are the ones numpy performs
     rc.run_relabel_tie(ctx, 'c16_relab', ['flip', 'pad', 'swap', 'unit', 'perm', 'perm'], 240 if ctx.quick else 2400)
@@ -361,6 +362,48 @@ def translation_edge_stream(ctx):
             d0 = []
         ctx.count('translation_edges=%s' % ('saturation' if '+inf' in what else 'scaling' if ' x ' in what else ('large offset' if 'min_delta' in kw0 else 'integers across zero')))
         ctx.case_done(None, ('translate', tuple(vals), shape, what) if len(d0) >= 2 else None)
+        if fails:
+            ctx.oracle_failure(info, fails)
+
+
+def default_threshold_scaling_stream(ctx):
+    """The DEFAULT threshold (no min_value: every finite pixel is kept) under v -> a * v with a a power of two and the data
+    on both sides of zero: at a = 2**55 ... 2**70 (float64) or 2**24 ... 2**30 (float32) the smallest value is a negative
+    number of large magnitude, where "minimum - 1" is the minimum itself and the threshold has to be the next number
+    BELOW it.  Every pixel must stay assigned and the hierarchy must be that of the unscaled picture.  Oracle only."""
+    rng = ctx.rng('c16-default-scale')
+    for it in range(60 if ctx.quick else 600):
+        shape = rng.choice([(rng.randint(6, 14),), (3, 4), (4, 4), (3, 5)])
+        npx = int(np.prod(shape))
+        vals = [rng.randint(-9, 6) for _ in range(npx)]
+        if min(vals) >= 0:
+            vals[rng.randrange(npx)] = -rng.randint(1, 9)
+        ident = list(range(npx))
+        single = rng.random() < 0.4
+        dt = np.float32 if single else np.float64
+        e = rng.choice([24, 25, 27, 30]) if single else rng.choice([53, 55, 60, 70, 200])
+        a_ = 2.0 ** e
+        delta = float(rng.randint(0, 3))
+        base = np.array(vals, dtype=dt).reshape(shape)
+        moved = (base * dt(a_)).astype(dt)                               # exact (small integers times a power of two)
+        what = '%s data on both sides of zero x 2**%d, default threshold, min_delta %r x 2**%d' % (dt.__name__, e, delta, e)
+        info = {'stream': 'default threshold under scaling', 'shape': list(shape), 'data': [float(x) for x in base.ravel()], 'what': what}
+        d0 = []
+        try:
+            d0 = Dendrogram.compute(base, min_delta=delta)
+            d1 = Dendrogram.compute(moved, min_delta=delta * a_)
+            h0, h1 = hierarchy_mapped(d0, shape, ident), hierarchy_mapped(d1, shape, ident)
+            fails = []
+            for nm, d in (('unscaled', d0), ('scaled', d1)):
+                lost = sorted(p for p, l in enumerate(d.index_map.ravel().tolist()) if l < 0)
+                if lost and delta == 0:
+                    fails.append('%s (%s): default threshold, yet pixels %s are not assigned' % (what, nm, lost))
+            if h0 != h1:
+                fails.append('%s: hierarchy %s, before the scaling %s' % (what, h1, h0))
+        except Exception as ex:
+            fails = ['compute raised %r' % (ex,)]
+        ctx.count('default_threshold_scaling=%s' % dt.__name__)
+        ctx.case_done(None, ('default-scale', tuple(vals), shape, what) if len(d0) >= 2 else None)
         if fails:
             ctx.oracle_failure(info, fails)
 
